@@ -1,15 +1,15 @@
----- MODULE MC_C08_quick_a_single ----
+---- MODULE MC_C08_quick_d_two_splits ----
 EXTENDS CircuitSys
 c_Dom == <<2, 2, 2>>
 c_KSet == {1}
 c_MaxK == 8
-c_MaxL == 5
+c_MaxL == 7
 c_MaxIn == 3
-c_InKindSeq == <<"emb", "const">>
-c_InnerKinds == {"had", "sum"}
-c_MaxAr == 3
-c_FreeOrder == TRUE
-c_MaxOuts == 1
+c_InKindSeq == <<"emb">>
+c_InnerKinds == {"had"}
+c_MaxAr == 2
+c_FreeOrder == FALSE
+c_MaxOuts == 2
 c_MaxBases == 1
 c_MaxOps == 0
 c_OpSet == {}
@@ -27,8 +27,8 @@ c_GradMod == 0
 c_QueryOn == FALSE
 c_J == 1
 c_EmitOps == {0}
-c_EmitMod == 60
+c_EmitMod == 1
 c_EmitRes == 0
-c_EmitSmall == 3
-c_EmitFilter == "all"
+c_EmitSmall == 0
+c_EmitFilter == "nonsd"
 ====
